@@ -207,16 +207,79 @@ Theorem C04_flight_answers : forall P reqs i r a b c d,
 Proof. exact tflight_answers. Qed.
 Print Assumptions C04_flight_answers.
 (* whose session: whatever else is in flight, a session handed out for request i is the one on record for the
-   session id the token of request i was minted for; at a class slot the token is of that class; every endpoint
-   but userinfo serves the client of that session only *)
+   session id the token of request i was minted for; at a class slot the token is of that class; the token and
+   revocation endpoints serve the client of that session only; introspection answers whom the audience rule admits *)
 Theorem C04_flight_bound_to_session : forall P reqs sched i s,
   In (i, TSession s) (run_tflight (tep_model P) reqs sched) ->
   exists r, nth_error reqs i = Some r /\ tanswer1 P r = TSession s /\
     forall m nonce rnd sid exp, r_tok r = mint (p_cfg P) m nonce rnd sid exp ->
       assoc sid (p_db P) = Some s /\ (forall h, slot_handler (ep_slot (r_ep r)) = Some h -> m = MTok h) /\
-      (r_ep r <> EpUserinfo -> s_client s = r_by r).
+      (r_ep r <> EpUserinfo -> r_ep r <> EpIntrospect -> s_client s = r_by r) /\
+      (r_ep r = EpIntrospect -> may_ask P s (r_tok r) (r_by r) = true).
 Proof. exact tflight_bound_to_session. Qed.
 Print Assumptions C04_flight_bound_to_session.
+(* with the audience rule at its default everywhere (enforced for every client, no audience on record but the
+   session's own client) every endpoint but userinfo - introspection included - serves the client of the session only *)
+Theorem C04_flight_bound_to_session_default_audience : forall P reqs sched i s,
+  p_enforce_default P = true /\ p_enforce P = [] /\ p_aud P = [] ->
+  In (i, TSession s) (run_tflight (tep_model P) reqs sched) ->
+  exists r, nth_error reqs i = Some r /\ tanswer1 P r = TSession s /\
+    forall m nonce rnd sid exp, r_tok r = mint (p_cfg P) m nonce rnd sid exp ->
+      assoc sid (p_db P) = Some s /\ (forall h, slot_handler (ep_slot (r_ep r)) = Some h -> m = MTok h) /\
+      (r_ep r <> EpUserinfo -> s_client s = r_by r).
+Proof. exact tflight_bound_to_session_closed. Qed.
+Print Assumptions C04_flight_bound_to_session_default_audience.
+
+(* THE ASKER OF AN INTROSPECTION (Model/TokenFmt.v may_ask / tintrospect_view / tprocess, compared by harness/drv_C04.py
+   with the real introspection endpoint asked by the token's own client, by other applications, by resource servers
+   registered with enforce_audience_restriction off, by clients listed in the token's audience and by clients that are
+   neither, for tokens of several live sessions, alone and in flight).  The client that asks need not be the client the
+   token was minted for.  The asker decides whether there is an answer; what the answer states is the session of the
+   token: r_by occurs in the audience test and nowhere else. *)
+Theorem C04_introspection_asker_only_gates : forall P t asker,
+  tanswer1 P (mkTreq EpIntrospect t asker) =
+  match tintrospect_view P t with
+  | Some s => if may_ask P s t asker then TSession s else TRefused
+  | None => TRefused
+  end.
+Proof. exact introspect_gate. Qed.
+Print Assumptions C04_introspection_asker_only_gates.
+(* any two askers that are answered are told the same session ... *)
+Theorem C04_introspection_asker_independent : forall P t a1 a2 s1 s2,
+  tanswer1 P (mkTreq EpIntrospect t a1) = TSession s1 -> tanswer1 P (mkTreq EpIntrospect t a2) = TSession s2 -> s1 = s2.
+Proof. exact introspect_asker_independent. Qed.
+Print Assumptions C04_introspection_asker_independent.
+(* ... the one on record for the session id the token was minted for, which is what its owner - or anybody else the
+   audience rule admits - is told *)
+Theorem C04_introspection_answer_is_owners : forall P m nonce rnd sid exp asker s,
+  tanswer1 P (mkTreq EpIntrospect (mint (p_cfg P) m nonce rnd sid exp) asker) = TSession s ->
+  assoc sid (p_db P) = Some s /\
+  forall owner, may_ask P s (mint (p_cfg P) m nonce rnd sid exp) owner = true ->
+    tanswer1 P (mkTreq EpIntrospect (mint (p_cfg P) m nonce rnd sid exp) owner) = TSession s.
+Proof. exact introspect_equals_owner. Qed.
+Print Assumptions C04_introspection_answer_is_owners.
+Theorem C04_introspection_owner_answered_by_default : forall P t s,
+  tintrospect_view P t = Some s -> (forall c, aud_lookup (s_id s) c (p_aud P) = None) ->
+  tanswer1 P (mkTreq EpIntrospect t (s_client s)) = TSession s.
+Proof. exact introspect_owner_default. Qed.
+Print Assumptions C04_introspection_owner_answered_by_default.
+(* the refuted variant: an introspection that names the ASKER as the client of the token answers the owner correctly
+   and tells a resource server that the token of (diana, client_1) belongs to a session (diana, rs_open) *)
+Example C04_introspection_naming_the_asker_refuted :
+  let s0 := mkSess 0 (PS "diana") (PS "client_1") in
+  let s1 := mkSess 1 (PS "babs") (PS "client_2") in
+  tanswer1 ex_prov_rs (ex_ireq (PS "sid-0") (PS "client_1")) = TSession s0 /\
+  tanswer1 ex_prov_rs (ex_ireq (PS "sid-0") (PS "rs_open")) = TSession s0 /\
+  tanswer1 ex_prov_rs (ex_ireq (PS "sid-1") (PS "rs_open")) = TSession s1 /\
+  tanswer1 ex_prov_rs (ex_ireq (PS "sid-1") (PS "rs_aud")) = TSession s1 /\
+  tanswer1 ex_prov_rs (ex_ireq (PS "sid-0") (PS "rs_aud")) = TRefused /\
+  tanswer1 ex_prov_rs (ex_ireq (PS "sid-0") (PS "client_2")) = TRefused /\
+  tanswer1_asker_named ex_prov_rs (ex_ireq (PS "sid-0") (PS "client_1")) = TSession s0 /\
+  tanswer1_asker_named ex_prov_rs (ex_ireq (PS "sid-0") (PS "rs_open")) = TSession (mkSess 0 (PS "diana") (PS "rs_open")) /\
+  tanswer1_asker_named ex_prov_rs (ex_ireq (PS "sid-1") (PS "rs_aud")) = TSession (mkSess 1 (PS "babs") (PS "rs_aud")).
+Proof. exact asker_named_refuted. Qed.
+Print Assumptions C04_introspection_naming_the_asker_refuted.
+
 Theorem C04_flight_userinfo_access_token : forall P nonce rnd sid exp by_,
   p_expired P exp = false ->
   tanswer1 P (mkTreq EpUserinfo (mint (p_cfg P) (MTok KAccess) nonce rnd sid exp) by_) =
